@@ -11,7 +11,7 @@ ID = 'C01'
 LEVEL = 'exploration'
 RULE = ('case = 1-6 rule ASTs (literal / plain-wildcard / int / float / re / path segments over a colliding alphabet a, b, ab, abc, /, digits, -, ., '
         'e-acute, CJK; later rules derived from earlier ones: extend, truncate, literal<->wildcard, rename, refilter, split a literal, same pattern with '
-        'other names and another method or the same method with overwrite=True; some rules are registered and removed again before the requests), each rendered into a generated rule-syntax flavour (:name, <name>, {name}, <name.f(args)>, <name:f(args)>, '
+        'other names and another method or the same method with overwrite=True; some rules are registered and removed again before the requests; a rule may lose its method again through the Route object (it stays, answers 405 and still beats a sibling wildcard rule) or get a further method attached through the Route object), each rendered into a generated rule-syntax flavour (:name, <name>, {name}, <name.f(args)>, <name:f(args)>, '
         '<name:f:args>, <f(args)>, <:f(args)>, {:f} ...) and registered; 8 request paths per set: instantiations of the accepted rules with values from '
         'per-filter pools (12, -3, 007, 1.5, tom, a/b, empty ...), one-character edits (insert / delete / replace incl. CR, LF, //), extra slashes, raw '
         'strings. Oracle = independent reference matcher (left-to-right, no backtracking inside a rule; priority: literal beats wildcard at the first '
@@ -38,7 +38,9 @@ def case_st(draw):
     for i, a in enumerate(asts):
         regs.append({'ast': a, 'choice': draw(st.lists(st.integers(0, 30), max_size=3)), 'method': METHODS[i % len(METHODS)] if draw(st.integers(0, 3)) else 'GET',
                      'overwrite': draw(st.integers(0, 3)) == 0,           # re-registration of a (pattern, method) under a rule that may name its wildcards differently
-                     'remove_after': draw(st.integers(0, 5)) == 0})        # registered, then removed again: the router must answer as if it had never been there
+                     'remove_after': draw(st.integers(0, 5)) == 0,         # registered, then removed again: the router must answer as if it had never been there
+                     'strip': draw(st.integers(0, 7)) == 0,                # the method is taken away again through the Route object: the rule stays and still selects its paths (405)
+                     'attach': draw(st.sampled_from([None, None, None, None, 'PATCH', 'PUT']))})   # a further method attached through the Route object
     paths = []
     for _ in range(8):
         if draw(st.integers(0, 9)) == 0:
@@ -52,27 +54,42 @@ _LAST = {}
 
 
 def register(case):
-    """-> (router, accepted: list of (idx, ast, method), rule texts)"""
+    """-> (router, accepted: list of (idx, ast, method or None), rule texts {idx: text}).
+    A registration may be followed by `strip` (its method is taken away again through the Route object: the rule stays, with no method)
+    or `attach` (a further method is attached through the Route object, without wildcard names of its own: entry idx + 1000)."""
     from ombott.router.radirouter import RadiRouter
     router = RadiRouter()
     accepted = []
-    texts = []
+    texts = {}
     events = []
+    first_on = {}                   # pattern key -> ast of the rule that created the Route object
     _LAST['events'] = events        # the successful steps in order, replayed on an application by _wsgi_part
+    mk = lambda i: (lambda **kw: (i, kw))   # noqa
     for i, reg in enumerate(case['regs']):
         text = R.render(reg['ast'], reg['choice'], case['spell'])
-        texts.append(text)
+        texts[i] = text
         if text is None or not R.legal(reg['ast']):
             continue
         try:
-            router.add(text, reg['method'], (lambda i: (lambda **kw: (i, kw)))(i), overwrite=bool(reg.get('overwrite')))
+            router.add(text, reg['method'], mk(i), overwrite=bool(reg.get('overwrite')))
         except Exception:  # rejected registration (filter conflict at one tree position, method taken, ...)
             continue
         ast = R.merge(reg['ast'])
+        key = R.pattern_key(ast)
+        first_on.setdefault(key, ast)
         # an accepted overwrite replaces the earlier registration of the same (pattern, method)
-        accepted = [(j, a, m) for (j, a, m) in accepted if not (m == reg['method'] and R.pattern_key(a) == R.pattern_key(ast))]
+        accepted = [(j, a, m) for (j, a, m) in accepted if not (m == reg['method'] and R.pattern_key(a) == key)]
         accepted.append((i, ast, reg['method']))
         events.append(('add', i, ast, reg['method']))
+        if reg.get('attach') and not any(m == reg['attach'] and R.pattern_key(a) == key for _, a, m in accepted):
+            router[{text}].add_method(reg['attach'], mk(i + 1000))
+            texts[i + 1000] = '%s (+%s attached through the Route object)' % (text, reg['attach'])
+            accepted.append((i + 1000, first_on[key], reg['attach']))
+            events.append(('attach', i, first_on[key], reg['attach']))
+        if reg.get('strip'):
+            router[{text}].remove_method(reg['method'])
+            accepted = [(j, a, (None if j == i else m)) for (j, a, m) in accepted]
+            events.append(('strip', i, ast, reg['method']))
     # rules flagged remove_after are taken out again (by rule text): only the survivors count
     for i, reg in enumerate(case['regs']):
         if reg.get('remove_after') and any(j == i for j, _, _ in accepted):
@@ -106,7 +123,7 @@ def check_case(ctx, case):
     router, accepted, texts = register(case)
     events = _LAST['events']
     ctx.count('rules_accepted', len(accepted))
-    ctx.count('rules_rejected', len(case['regs']) - len(accepted))
+    ctx.count('rules_rejected', max(0, len(case['regs']) - len(accepted)))
     if not accepted:
         ctx.count('no_rule_accepted')
         return
@@ -119,7 +136,7 @@ def check_case(ctx, case):
             continue
         sp = path.strip('/')
         nmatch = sum(1 for a in asts if R.match(a, sp, False) is not None)
-        for method in sorted({m for _, _, m in accepted} | {'GET'}):
+        for method in sorted({m for _, _, m in accepted if m} | {'GET'}):
             try:
                 end_point, err = router.resolve(path, [method])
             except Exception as e:
@@ -189,6 +206,15 @@ def _wsgi_part(ctx, case, accepted, texts, events):
                 raise CheckFailure(f'rule {texts[i]!r} was accepted by RadiRouter.add but rejected by Ombott.route on an identical history')
             ok = [(j, a, mm) for (j, a, mm) in ok if not (mm == m and R.pattern_key(a) == R.pattern_key(ast))]
             ok.append((i, ast, m))
+        elif ev == 'attach':
+            def h2(_i=i + 1000, **kw):
+                box['got'] = (_i, kw)
+                return 'h'
+            app.router[{texts[i]}].add_method(m, h2)
+            ok.append((i + 1000, ast, m))
+        elif ev == 'strip':
+            app.router[{texts[i]}].remove_method(m)
+            ok = [(j, a, (None if j == i else mm)) for (j, a, mm) in ok]
         else:
             try:
                 app.remove_route(texts[i])
@@ -208,7 +234,8 @@ def _serve(ctx, app, box, ok, texts, paths, every_method):
         exp, why = expect(ok, path) if ok else ({'kind': 404}, None)
         if exp is None:
             continue
-        for method in (sorted({m for _, _, m in ok}) if every_method else [ok[0][2] if ok else 'GET']):
+        verbs = sorted({m for _, _, m in ok if m}) or ['GET']
+        for method in (verbs if every_method else verbs[:1]):
             box.clear()
             r = call_app(app, make_environ(method, path))
             if r.escaped is not None:
@@ -341,6 +368,15 @@ def fixed_grid(ctx):
             for spell in (0, 1):
                 ctx.guarded(check_case, {'regs': [{'ast': R._fix(a), 'choice': [2], 'method': 'GET'} for a in order], 'spell': spell, 'paths': ps})
     ctx.count('fixed_grid_late_specific_rule', len(late))
+    # rules that keep their place with no method left (405, and still ahead of a sibling wildcard rule); methods attached through the Route object
+    for stripped, other, ps in (([L('/item/new')], [L('/item/'), W('id')], ['/item/new', '/item/7']), ([L('/only')], [L('/other')], ['/only', '/other']),
+                                ([L('/u/'), W('uid', 'int'), L('/posts')], [L('/u/'), W('uid', 'int'), L('/posts/'), W('pid', 'int')], ['/u/5/posts', '/u/5/posts/9'])):
+        for order in (0, 1):
+            for flags in (('strip', None), (None, 'attach'), ('strip', 'attach'), (None, None)):
+                regs = [{'ast': R._fix(stripped), 'choice': [2], 'method': 'GET', 'strip': flags[0] == 'strip', 'attach': 'PUT' if flags[1] else None},
+                        {'ast': R._fix(other), 'choice': [2], 'method': 'GET', 'attach': 'PUT' if flags[1] else None}]
+                ctx.guarded(check_case, {'regs': regs[::-1] if order else regs, 'spell': 0, 'paths': ps})
+    ctx.count('fixed_grid_stripped_and_attached')
 
 
 def run(ctx):
